@@ -434,16 +434,21 @@ fn merge_cases(tier: Tier) -> (Vec<MergeCase>, Vec<MergeCase>, Vec<MergeCase>) {
                 }
             }
         }
-    } else {
-        // quick: everything in the file + everything on the command line, and the four "all options" combinations
-        for p in 1..4u8 {
-            for variant in 0..3 {
-                let opts: Vec<_> = (0..n).filter(|i| !["private_key", "statsd_prefix"].contains(&OPTS[*i].key) || p & 2 == 0).map(|i| (i, p, variant)).collect();
-                triples.push(MergeCase { opts });
-            }
-        }
     }
     (single, pairs, triples)
+}
+
+/// Everything in the file, everything on the command line, everything in both - for each of the three value variants.
+fn all_option_cases() -> Vec<MergeCase> {
+    let n = OPTS.len();
+    let mut v = vec![];
+    for p in 1..4u8 {
+        for variant in 0..3 {
+            let opts: Vec<_> = (0..n).filter(|i| !["private_key", "statsd_prefix"].contains(&OPTS[*i].key) || p & 2 == 0).map(|i| (i, p, variant)).collect();
+            v.push(MergeCase { opts });
+        }
+    }
+    v
 }
 
 fn mask_cases() -> Vec<MaskCase> {
@@ -470,7 +475,10 @@ pub fn run(ctx: &Ctx) {
     let (single, pairs, triples) = merge_cases(ctx.tier);
     sweep_list(ctx, "per_option", &single, SweepOpts { trivial_classes: vec![0], ..Default::default() }, run_merge);
     sweep_list(ctx, "pairwise", &pairs, SweepOpts { trivial_classes: vec![0], ..Default::default() }, run_merge);
-    sweep_list(ctx, ctx.tier.pick("all_options", "triples"), &triples, SweepOpts { trivial_classes: vec![0], ..Default::default() }, run_merge);
+    sweep_list(ctx, "all_options", &all_option_cases(), SweepOpts { trivial_classes: vec![0], ..Default::default() }, run_merge);
+    if !triples.is_empty() {
+        sweep_list(ctx, "triples", &triples, SweepOpts { trivial_classes: vec![0], ..Default::default() }, run_merge);
+    }
     sweep_list(ctx, "netmask", &mask_cases(), SweepOpts { trivial_classes: vec![1], ..Default::default() }, run_mask);
     ctx.assume("documented defaults (vpncloud.adoc) are hard-coded in the harness; environment variables PASSWORD/PRIVATE_KEY are unset");
     ctx.assume("two command-line combinations are refused by the parser as documented (password + private key, statsd prefix without server) and count as trivial");
